@@ -15,18 +15,18 @@ BACKENDS = (
 SPEC, WD, PROJ, NAME = tok("SPEC"), tok("WD"), tok("PROJ"), "NAME"
 
 
-def make_target(ctx, options):
+def make_target(ctx, options, spec=None):
     from .evalhelpers import target_obj
-    return target_obj(ctx, name=NAME, spec=SPEC, working_dir=WD, options=dict(options), inputs=[], outputs=[])
+    return target_obj(ctx, name=NAME, spec=SPEC if spec is None else spec, working_dir=WD, options=dict(options), inputs=[], outputs=[])
 
 
-def compile_script(ctx, mod, cname, options, log_mode="full"):
+def compile_script(ctx, mod, cname, options, log_mode="full", spec=None):
     idx = ctx.index
     ci = idx.cls(f"{mod}:{cname}")
     fn = idx.method(ci, "compile_script")
     interp = PureInterp(ctx)
     self_obj = Obj("ops", working_dir=PROJ, log_mode=log_mode, accounting_enabled=True, **{"__class__": ci})
-    script = interp.call(fn, (make_target(ctx, options),), {}, self_obj=self_obj)
+    script = interp.call(fn, (make_target(ctx, options, spec),), {}, self_obj=self_obj)
     if not isinstance(script, str):
         raise Unsupported(f"compile_script returned {type(script).__name__}")
     return fn, script
@@ -75,6 +75,14 @@ def rule_assembly(ctx, r):
                 f"the spec is not embedded verbatim as the last part of the script (tail: {tail[:60]!r}; occurrences: {script.count(SPEC)})", where)
         pre = lines[spec_i[0]] if spec_i else ""
         r.check(pre.startswith(SPEC), con + "::spec-own-line", "the spec starts on its own line", f"the spec is preceded on its line by {pre[:30]!r}", where)
+        # ... and with a concrete spec whose indentation, blank lines and trailing blanks matter (here-document, quoted multi-line string)
+        try:
+            _fn, script2 = compile_script(ctx, mod, cname, opts, spec=NASTY_SPEC)
+            r.check(script2.endswith(NASTY_SPEC) and script2.count(NASTY_SPEC) == 1, con + "::spec-whitespace", "an indented multi-line spec reaches the script byte for byte",
+                    f"an indented multi-line spec is rewritten on its way into the script (script tail {script2[-len(NASTY_SPEC) - 5:]!r}; expected it to end with {NASTY_SPEC!r}): "
+                    "leading whitespace is significant in here-documents and quoted strings, the job no longer runs the spec verbatim", where)
+        except (Raised, Unsupported) as exc:
+            r.info(con + "::spec-whitespace", f"not evaluated ({exc})")
     # ensure_trailing_newline keeps text verbatim
     interp = PureInterp(ctx)
     etn = idx.func("gwf.utils:ensure_trailing_newline")
